@@ -9,7 +9,11 @@ import (
 	banktypes "github.com/cosmos/cosmos-sdk/x/bank/types"
 	govtypes "github.com/cosmos/cosmos-sdk/x/gov/types"
 	"github.com/ethereum/go-ethereum/common"
+	"github.com/ethereum/go-ethereum/core/rawdb"
+	gethstate "github.com/ethereum/go-ethereum/core/state"
 	ethtypes "github.com/ethereum/go-ethereum/core/types"
+	"github.com/ethereum/go-ethereum/core/vm/runtime"
+	gethparams "github.com/ethereum/go-ethereum/params"
 	"github.com/ethereum/go-ethereum/crypto"
 
 	e "haqqsim/engine"
@@ -74,7 +78,7 @@ func (c07) MandatoryProbes() []string {
 }
 
 type c07Model struct {
-	contracts [3]common.Address // reverter, looper, storer
+	contracts [4]common.Address // reverter, looper, storer, storer4
 	pending   [][]byte
 	pendMeta  []*c07Meta
 }
@@ -88,11 +92,13 @@ type c07Msg struct {
 	to        *common.Address
 	target    int64
 	accessLen int
+	data      []byte
 }
 
 type c07Meta struct {
-	kind   string // eth | cosmos
-	sender int
+	kind     string // eth | cosmos
+	sender   int
+	preState map[common.Address]map[common.Hash]common.Hash // storage of the contracts before the tx
 	msgs   []c07Msg
 	gas    uint64   // cosmos: declared gas
 	fee    *big.Int // cosmos: declared fee
@@ -102,7 +108,7 @@ func (c07) Setup(w *e.World) error {
 	m := &c07Model{}
 	w.Ext["c07"] = m
 	dep := w.Acct(len(w.Accts) - 1)
-	codes := [][]byte{evmprog.Reverter(), evmprog.Looper(), evmprog.Storer()}
+	codes := [][]byte{evmprog.Reverter(), evmprog.Looper(), evmprog.Storer(), evmprog.Storer4()}
 	for i, code := range codes {
 		nonce := w.EthNonce(dep.Eth)
 		res, err := w.DoEth(dep, e.EthArgs{Type: 2, Data: evmprog.Deployer(code), Gas: 300_000})
@@ -131,7 +137,7 @@ func (p c07) Gen(w *e.World, r *e.RNG) e.Step {
 		net = "delay"
 	}
 	genMsg := func() ([]int64, []string) {
-		target := int64(r.Weighted([]int{8, 2, 2, 2, 2, 1}))
+		target := int64(r.Weighted([]int{8, 2, 2, 2, 2, 1, 2, 3}))
 		gas := r.Range(21000, 120000)
 		if r.Chance(0.3) {
 			gas = 21000
@@ -218,10 +224,20 @@ func (p c07) buildEth(w *e.World, m *c07Model, st *e.Step, k int) (*evmtypes.Msg
 		cm.to = &to
 		data = []byte{1}
 		cm.value = new(big.Int)
+	case 6:
+		to := m.contracts[3]
+		cm.to = &to
+		cm.value = new(big.Int)
+	case 7:
+		to := m.contracts[3]
+		cm.to = &to
+		data = []byte{1}
+		cm.value = new(big.Int)
 	default:
 		data = evmprog.Deployer(evmprog.Storer())
 		cm.value = new(big.Int)
 	}
+	cm.data = data
 	args := e.EthArgs{Type: cm.typ, To: cm.to, Value: cm.value, Gas: cm.gas, GasPrice: cm.price, Tip: cm.tip, Data: data}
 	if cm.typ >= 1 && n(5) > 0 {
 		al := ethtypes.AccessList{}
@@ -252,12 +268,12 @@ func effPrices(cm c07Msg, baseFee *big.Int, baseFeeOn bool) []*big.Int {
 		}
 		return []*big.Int{x}
 	}
-	// no base fee: EIP-1559 with base 0 gives min(cap, tip); paying the cap is the other reading
+	// base fee disabled: EIP-1559 with a base fee of 0, i.e. min(cap, tip)
 	x := cm.tip
 	if x.Cmp(cm.price) > 0 {
 		x = cm.price
 	}
-	return []*big.Int{cm.price, x}
+	return []*big.Int{x}
 }
 
 func (p c07) deliver(w *e.World, bz []byte, meta *c07Meta) *e.Violation {
@@ -269,6 +285,17 @@ func (p c07) deliver(w *e.World, bz []byte, meta *c07Meta) *e.Violation {
 	minGP := fp.MinGasPrice.BigInt() // × 1e18
 	mult := fp.MinGasMultiplier.BigInt()
 	sender := w.Acct(meta.sender)
+	meta.preState = map[common.Address]map[common.Hash]common.Hash{}
+	if m, ok := w.Ext["c07"].(*c07Model); ok {
+		for _, c := range m.contracts {
+			st := map[common.Hash]common.Hash{}
+			for i := int64(0); i < 4; i++ {
+				k := common.BigToHash(big.NewInt(i))
+				st[k] = app.EvmKeeper.GetState(ctx, c, k)
+			}
+			meta.preState[c] = st
+		}
+	}
 	fc := e.ModuleAddr(authtypes.FeeCollectorName)
 	preS, preFC := w.Balance(sender.Acc), w.Balance(fc)
 	_, preSeq, _ := w.AccountNumSeq(sender.Acc)
@@ -295,7 +322,7 @@ func (p c07) deliver(w *e.World, bz []byte, meta *c07Meta) *e.Violation {
 	// Ethereum tx
 	below, capLow := false, false
 	for _, cm := range meta.msgs {
-		for _, ep := range effPrices(cm, baseFee, baseFeeOn)[:1] {
+		for _, ep := range effPrices(cm, baseFee, baseFeeOn) {
 			if new(big.Int).Mul(ep, scale).Cmp(minGP) < 0 {
 				below = true
 			}
@@ -361,6 +388,25 @@ func (p c07) deliver(w *e.World, bz []byte, meta *c07Meta) *e.Violation {
 					return e.Violatef("eth-gas-charge", "transfer-gas-used-wrong", "%s: plain transfer with limit %d used %d, expected max(%d, %s x limit)", desc, cm.gas, gu, cost, fp.MinGasMultiplier)
 				}
 				w.Stats.Probe("exact_transfer_cost_checked")
+			}
+		}
+		if cm.target >= 1 && cm.target != 5 && len(meta.msgs) == 1 {
+			// contract targets: the gas an independent EVM run needs (go-ethereum's
+			// runtime on an in-memory state holding the target's code and storage),
+			// with intrinsic gas and the EIP-3529 refund cap applied from the spec
+			if ref, ok := refEVMGas(w, meta.preState, sender.Eth, cm); ok {
+				want := ref
+				if flFloor.Uint64() > want {
+					want = flFloor.Uint64()
+				}
+				ceil := new(big.Int).Add(flFloor, big.NewInt(1)).Uint64()
+				if gu != want && !(gu == ceil && ref < ceil) {
+					return e.Violatef("eth-gas-charge", "contract-call-gas-used-wrong", "%s: call to target %d with limit %d used %d, reference EVM run gives %d (floor %s)", desc, cm.target, cm.gas, gu, ref, flFloor)
+				}
+				w.Stats.Probe("reference_evm_gas_checked")
+				if cm.target == 7 {
+					w.Stats.Probe("refund_cap_exercised")
+				}
 			}
 		}
 		if r.Failed() {
@@ -493,4 +539,50 @@ func (p c07) Final(w *e.World) *e.Violation {
 		}
 	}
 	return nil
+}
+
+// refEVMGas runs the call on go-ethereum's own in-memory runtime and applies
+// intrinsic gas (21000 + calldata + access list) and the EIP-3529 refund cap
+// (refund <= gasUsed/5) as the specifications state them.
+func refEVMGas(w *e.World, pre map[common.Address]map[common.Hash]common.Hash, from common.Address, cm c07Msg) (uint64, bool) {
+	if cm.to == nil {
+		return 0, false
+	}
+	code := w.App().EvmKeeper.GetCode(w.Ctx(), common.BytesToHash(w.App().EvmKeeper.GetAccountOrEmpty(w.Ctx(), *cm.to).CodeHash))
+	if len(code) == 0 {
+		return 0, false
+	}
+	intrinsic := uint64(21000) + uint64(cm.accessLen)*2400
+	for _, b := range cm.data {
+		if b == 0 {
+			intrinsic += 4
+		} else {
+			intrinsic += 16
+		}
+	}
+	if cm.gas <= intrinsic {
+		return 0, false // (a gas limit of 0 means "unlimited" to the reference runtime)
+	}
+	db, err := gethstate.New(common.Hash{}, gethstate.NewDatabase(rawdb.NewMemoryDatabase()), nil)
+	if err != nil {
+		return 0, false
+	}
+	db.SetCode(*cm.to, code)
+	for k, v := range pre[*cm.to] {
+		db.SetState(*cm.to, k, v)
+	}
+	db.AddBalance(from, new(big.Int).Lsh(big.NewInt(1), 100))
+	db.Finalise(true) // originals = current, as at the start of a transaction
+	cfg := &runtime.Config{State: db, GasLimit: cm.gas - intrinsic, Origin: from, Value: new(big.Int).Set(cm.value),
+		ChainConfig: gethparams.AllEthashProtocolChanges, BlockNumber: big.NewInt(100), BaseFee: big.NewInt(0), GasPrice: big.NewInt(0)}
+	_, left, cerr := runtime.Call(*cm.to, cm.data, cfg)
+	used := intrinsic + (cm.gas - intrinsic - left)
+	if cerr == nil {
+		refund := db.GetRefund()
+		if max := used / 5; refund > max {
+			refund = max
+		}
+		used -= refund
+	}
+	return used, true
 }
